@@ -102,6 +102,18 @@ func (self SyntaxError) Message() string {
 	return self.Msg
 }
 
+// ClampPos keeps a reported position inside the source: the native scanners
+// leave their cursor a few bytes past the end (or at -1) when the input ends early.
+func ClampPos(pos int, size int) int {
+	if pos > size {
+		return size
+	}
+	if pos < 0 {
+		return 0
+	}
+	return pos
+}
+
 func clamp_zero(v int) int {
 	if v < 0 {
 		return 0
@@ -124,7 +136,7 @@ func ErrorWrap(src string, pos int, code types.ParsingError) error {
 //go:noinline
 func error_wrap_heap(src string, pos int, code types.ParsingError) *SyntaxError {
 	return &SyntaxError{
-		Pos:  pos,
+		Pos:  ClampPos(pos, len(src)),
 		Src:  src,
 		Code: code,
 	}
